@@ -54,7 +54,8 @@ CHECKS = {
         text='Driver-side clauses only: with recovery off an Error action yields exactly one ParseError (the state just looked '
              'up, the lexeme at the very input index used for the lookup, no repairs), no recoverer call and no value; the '
              'end-of-input lexeme is a faulty zero-length EOF lexeme at the end of the last real lexeme; action() is a pure '
-             'decode of the table cell. Two necessary conditions of the table side: the LR(1) closure\'s work list is cleared '
+             'decode of the table cell; with recovery on, every path of the arm that calls the recoverer pushes exactly one error '
+             'carrying that same state and lexeme, repairs found or not. Two necessary conditions of the table side: the LR(1) closure\'s work list is cleared '
              'only for the entry just taken, every taken entry is cleared, an entry is scheduled exactly when Itemset::add '
              'reports a change; and FIRST(Y) of a symbol behind the dot is merged together with a test of nullable(Y).',
         note='That the state the parser is in rejects exactly at the viable-prefix boundary is table correctness (C01) and is NOT decided beyond those two conditions. Trusted: ' + TB,
@@ -76,7 +77,8 @@ CHECKS = {
              'insert after delete; positive token costs asserted before parsing; the node-merging relation (eq table over the '
              'fields themselves, Hash subset); the two phases of the search and the sweep\'s cost filter; every candidate is '
              'test-parsed to the same end point; a forward move that consumed a lexeme is never discarded, and is recorded as a '
-             'Shift repair exactly when it consumed one; a deletion is charged the cost of the token at the node\'s own position.',
+             'Shift repair exactly when it consumed one; a deletion is charged the cost of the token at the node\'s own position; '
+             'whether an insertion neighbour is built depends only on the candidate iterator, the end-of-input test and the trial parse.',
         note='Minimality and completeness of the returned set need the exhaustive reference search and are NOT decided. Trusted: ' + TB,
         technique='path-table extraction of comparator/neighbour/eq tables and dominance ordering of pipeline stages in MIR',
         ref='§4 C06'),
@@ -196,7 +198,9 @@ CHECKS = {
              'the resolved generic arguments; FNV item sets and IndexMap are deterministic and are not sources) is '
              'classified by its consumer; anything that lets hash order reach an ordered result (Vec::push, index '
              'allocation, first-match, formatting) is a violation unless it is one of 7 listed sites, each excusing named effects '
-             'only (all &mut arguments of calls in such a loop are examined; a Vec sorted after the loop is order-free). '
+             'only (all &mut arguments of calls in such a loop are examined; a Vec sorted after the loop is order-free); the premise of the '
+             'one exception that rests on another function (the token list CTTokenMapBuilder::new collects is only read by build through a '
+             'copy sorted by name) is itself checked. '
              'Thorough tier additionally checks in the MIR of the repository\'s own generated parsers that start-up data '
              'is obtained through OnceLock::get_or_init and that no static mut exists.',
         note='Necessary condition for run-to-run determinism of numbering, tables and generated code; not a proof of '
